@@ -65,8 +65,24 @@ def build(cell, names, xs=None):
 _RUNS = {}
 
 
+def raised_explicitly(ex):
+    """Was the exception raised by a `raise` statement (an explicit rejection written by the authors), or did it come out of a
+    builtin / library call (list.index, a dict lookup, float(), numpy) - an internal error that merely has the same type?"""
+    import linecache
+
+    tb = ex.__traceback__
+    if tb is None:
+        return True
+    while tb.tb_next is not None:
+        tb = tb.tb_next
+    line = linecache.getline(tb.tb_frame.f_code.co_filename, tb.tb_lineno).strip()
+    return line.startswith("raise ") or line == "raise" or not line      # (no source available: benefit of the doubt)
+
+
 def classify_exception(ex):
     if isinstance(ex, (ValueError, NotImplementedError)):
+        if not raised_explicitly(ex):
+            return "Crash_" + type(ex).__name__ + "FromLookup"
         return "Reject_" + type(ex).__name__
     if isinstance(ex, ImportError):
         return "Reject_ImportError"
